@@ -93,6 +93,38 @@ pub fn run(op: &str, args: &[String]) -> Option<String> {
                 Err(_) => "ERR".into(),
             }
         }
+        "script.opname" => {
+            let n = match arg_u64(args, 0) {
+                Some(n) if n < 256 => n as u8,
+                _ => return Some("BADARG".into()),
+            };
+            if (1..=75).contains(&n) {
+                return Some("PUSH".into());
+            }
+            // the opcode a lone byte parses to: its name (Debug of the enum variant) and numeric value
+            let probe: Vec<u8> = match n {
+                76 => vec![76, 0],
+                77 => vec![77, 0, 0],
+                78 => vec![78, 0, 0, 0, 0],
+                _ => vec![n],
+            };
+            match Script::from_bytes(&probe) {
+                Ok(s) => match s.to_script_bits().first() {
+                    Some(ScriptBit::OpCode(c)) => format!("OK:{:?};{}", c, *c as u8),
+                    Some(ScriptBit::PushData(c, _)) => format!("OK:{:?};{}", c, *c as u8),
+                    Some(ScriptBit::If { code, .. }) => format!("OK:{:?};{}", code, *code as u8),
+                    _ => "ERR".into(),
+                },
+                // IF-family opcodes alone are unterminated: parse them closed
+                Err(_) => match Script::from_bytes(&[n, 0x68]) {
+                    Ok(s) => match s.to_script_bits().first() {
+                        Some(ScriptBit::If { code, .. }) => format!("OK:{:?};{}", code, *code as u8),
+                        _ => "ERR".into(),
+                    },
+                    Err(_) => "ERR".into(),
+                },
+            }
+        }
         "script.pushdata_prefix" => {
             let n = match arg_u64(args, 0) {
                 Some(n) => n,
